@@ -54,7 +54,8 @@ Logged ==
   \/ Is("HReadBus") /\ task[HT(Ln.act)].pc = "sync" /\ task[HT(Ln.act)].b = Ln.rb /\ UNCHANGED vars
   \/ Is("HEnter") /\ ~Ln.sync /\ task[HT(Ln.act)].b = Ln.b /\ task[HT(Ln.act)].e = Ln.e /\ task[HT(Ln.act)].h = Ln.h
                   /\ TaskLabelKind(task[HT(Ln.act)].owner) = Ln.byk /\ Ln.b = Ln.rb /\ HStart(Ln.act)
-  \/ Is("HOp") /\ Ln.op # "cleanup" /\ task[HT(Ln.act)].pc = (IF Ln.op = "y" THEN "yield" ELSE "sleep") /\ HWake(Ln.act)
+  \/ Is("HOp") /\ Ln.op \notin {"cleanup", "cl"} /\ task[HT(Ln.act)].pc = (IF Ln.op = "y" THEN "yield" ELSE "sleep") /\ HWake(Ln.act)
+  \/ Is("HOp") /\ Ln.op = "cl" /\ HSetCleanup(Ln.act)
   \/ Is("HOp") /\ Ln.op = "cleanup" /\ HCleanupBegin(Ln.act)
   \/ Is("HReadBus") /\ cur = HT(Ln.act) /\ task[HT(Ln.act)].b = Ln.rb /\ UNCHANGED vars
   \/ Is("AwB") /\ \E k \in DOMAIN task[HT(Ln.act)].kids : task[HT(Ln.act)].kids[k] = Ln.e /\ HAwaitBegin(Ln.act, k)
@@ -92,7 +93,7 @@ Counted ==   \* silent steps that change the state
   \/ \E t \in Tasks : (ProcSelect(t) /\ task'[t].pc = "pb") \/ (OwnerNext(t) /\ task'[t].pc = "waith") \/ OwnerResume(t) \/ OwnerEpilogue(t) \/ OwnerAbort(t) \/ FwdReturn(t) \/ SyncReturn(t) \/ ParStart(t) \/ TimeoutFire(t) \/ WalBegin(t) \/ WalOpen(t, FALSE) \/ WalClose(t)
   \/ \E k \in 1..MaxAct : XStart(k) \/ XEnd(k) \/ XAbandon(k)
   \/ \E t \in Tasks : PCancelWake(t)
-  \/ \E a \in 1..MaxAct : HSuspend(a, "yield") \/ HSuspend(a, "sleep") \/ HSetCleanup(a)
+  \/ \E a \in 1..MaxAct : HSuspend(a, "yield") \/ HSuspend(a, "sleep")
   \/ \E i \in 1..NDrv : DIdleStart(i) \/ DIdleJoin(i) \/ DIdleFlag(i) \/ (DIdleRecheck(i) /\ task'[DT(i)].pc # "run")
 Spins == \E a \in 1..MaxAct : InlineSpin(a) \/ SpinWake(a)     \* 1000 zero-sleeps revisit the same two states
 
